@@ -4,6 +4,7 @@ CONSTANTS OFFBYONE = FALSE
   Objs = {1, 2, 3}
   MaxRevs = 3
   Styles = {"runs"}
+  ZeroFree = FALSE
   MaxPieces = 5
   STRICT_LENGTH = FALSE
 CONSTRAINT PiecesBound
